@@ -243,9 +243,10 @@ ASSUMPTIONS = [
     'ValueError; RegularType / ArrayType with a float or an int outside int64_t: TypeError; RecordType with keys of '
     'another length: ValueError) from reading src/python/types.cpp and pybind11\'s integer caster, which cannot be run '
     'here. Any exception = rejected (exception classes are not compared). One deviation of the model is known and '
-    'counted, not reported (lark_model.deviation:size-beyond-int64): Lark.v accepts "9223372036854775808 * int64" (its '
-    'size is a Z), the constructor refuses it. Type strings are valid UTF-8 (a lone surrogate cannot be cast to '
-    'std::string by pybind11)',
+    'counted, not reported (evidence c17.lark_model.*.known_deviation.size-beyond-int64): Lark.v accepts '
+    '"9223372036854775808 * int64" (its size is a Z), the constructor refuses it. Type strings are valid UTF-8 (a lone '
+    'surrogate cannot be cast to std::string by pybind11) and nested at most a few levels deep (toast is recursive: '
+    'Python\'s RecursionError beyond some 300 nested types is a resource limit the model does not have)',
     'the model\'s type_parse covers the fragment `printable` (theorem type_print_parse_roundtrip): no parameters= forms, '
     'no categorical[...]; on the other strings only "prints back identically when it parses" is checked',
     'element typing is checked for the first 8 and the last element; range slices for 9 (start, stop) pairs',
